@@ -387,6 +387,12 @@ def gen_listing_program(rng):
             L.append('\t%s\t%s' % (bop, ','.join(str(rng.randrange(256)) for _ in range(cnt))))
         elif k == 2:
             L.append('\t%s\t%d' % (wop, rng.randrange(65536)))
+            if rng.random() < 0.3:
+                # one statement that emits more than the 512-byte output buffer holds
+                if cpu in ('68000', '6809'):
+                    L.append('\tdc.w\t[%d]%d' % (rng.choice([255, 256, 257, 300]), rng.randrange(0x100, 0xff00)))
+                elif cpu in ('z80', '8051', '8086'):
+                    L.append('\tdw\t%d dup (%d)' % (rng.choice([255, 256, 257, 300]), rng.randrange(0x100, 0xff00)))
         elif k == 3:
             L.append('\temit\t%d,%d' % (rng.randrange(100), rng.randrange(100)))
         elif k == 4:
